@@ -317,6 +317,15 @@ def _bound_arg(call: ast.Call, fi: FuncInfo, pname: str, method: bool = False) -
     return None
 
 
+def _is_pruned_dict(f, e: ast.AST) -> bool:
+    if norm(e) in ("self.pruned_dict", "self._pruned_dict"):
+        return True
+    if isinstance(e, ast.Name) and parent(e) is not None:
+        r = D.reaching_value(f, e, e.id)
+        return r is not None and norm(r[1]) == "self.pruned_dict"
+    return False
+
+
 def k1_tree_roots(ctx, K: Kinds, modules=("rule_db.base", "rule_db.forget", "rule_db.forest", "bijection", "comb_spec_searcher", "specification")) -> None:
     """Every call into tree_searcher that carries a `root` together with a representative-
     keyed dictionary passes a representative."""
@@ -352,7 +361,7 @@ def k1_tree_roots(ctx, K: Kinds, modules=("rule_db.base", "rule_db.forget", "rul
     for fi in P.all_functions():
         for n in walk_local(fi.node):
             if isinstance(n, ast.Compare) and len(n.ops) == 1 and isinstance(n.ops[0], (ast.In, ast.NotIn)) \
-                    and norm(n.comparators[0]) in ("self.pruned_dict", "self._pruned_dict"):
+                    and _is_pruned_dict(fi.node, n.comparators[0]):
                 ctx.analysed(fi)
                 k = K.kind(n.left, fi.node)
                 if is_rep(k):
@@ -542,7 +551,8 @@ def k5_cache_invalidation(ctx) -> None:
     ctx.analysed(hs)
     rets = [r for r in C.returns_of(hs.node) if r.value is not None]
     okh = len(rets) == 1 and isinstance(rets[0].value, ast.Compare) and len(rets[0].value.ops) == 1 \
-        and isinstance(rets[0].value.ops[0], ast.In) and norm(rets[0].value.comparators[0]) == "self.pruned_dict"
+        and isinstance(rets[0].value.ops[0], ast.In) and _is_pruned_dict(hs.node, rets[0].value.comparators[0]) \
+        and norm(rets[0].value.comparators[0]) != "self._pruned_dict"
     if okh:
         ctx.ok("K5", "has_specification = membership of the root in the pruned dictionary")
     else:
@@ -779,11 +789,15 @@ def k6_one_way_table(ctx, K: Kinds) -> None:
         m = P.need_method("EquivalenceDB", mname, own=True)
         ctx.analysed(m)
         f = m.node
+        tables = {"self._one_way_vertices"}
+        for st in walk_local(f):
+            if isinstance(st, ast.Assign) and any(norm(t) == "self._one_way_vertices" for t in st.targets) and isinstance(st.value, ast.Name):
+                tables.add(st.value.id)
         for c in walk_local(f):
             if isinstance(c, ast.Call) and isinstance(c.func, ast.Attribute) and c.func.attr == "add" \
                     and isinstance(c.func.value, ast.Subscript) and len(c.args) == 1:
                 tbl = norm(c.func.value.value)
-                if tbl not in ("res", "self._one_way_vertices"):
+                if tbl not in tables:
                     continue
                 n += 1
                 kk, kv = K.kind(c.func.value.slice, f), K.kind(c.args[0], f)
@@ -959,3 +973,114 @@ def k9_index_order(ctx) -> None:
                                   f"it must go through `{omap}` (the two orders differ whenever child labels and their representatives sort differently)")
     if n < 2:
         ctx.floor("K9", 99)
+
+
+# ------------------------------------------------------------------------ K10
+def _eval_order(e: ast.AST) -> List[ast.AST]:
+    """Sub-expressions of e in Python's evaluation order (operands before the operation)."""
+    out: List[ast.AST] = []
+
+    def go(n):
+        if isinstance(n, ast.Compare):
+            go(n.left)
+            for c in n.comparators:
+                go(c)
+        elif isinstance(n, ast.Call):
+            go(n.func)
+            for a in n.args:
+                go(a)
+            for k in n.keywords:
+                go(k.value)
+        elif isinstance(n, ast.Attribute):
+            go(n.value)
+        elif isinstance(n, ast.Subscript):
+            go(n.value)
+            go(n.slice)
+        elif isinstance(n, ast.BinOp):
+            go(n.left)
+            go(n.right)
+        elif isinstance(n, (ast.BoolOp,)):
+            for v in n.values:
+                go(v)
+        elif isinstance(n, (ast.Tuple, ast.List, ast.Set)):
+            for v in n.elts:
+                go(v)
+        elif isinstance(n, ast.Starred):
+            go(n.value)
+        elif isinstance(n, ast.UnaryOp):
+            go(n.operand)
+        elif isinstance(n, ast.IfExp):
+            go(n.test)
+            go(n.body)
+            go(n.orelse)
+        elif isinstance(n, ast.keyword):
+            go(n.value)
+        out.append(n)
+
+    go(e)
+    return out
+
+
+def k10_representative_freshness(ctx, K: Kinds) -> None:
+    """Reading `self.pruned_dict` may recompute it, and recomputation calls
+    connect_cycles(), which can merge the start class into another representative.  A
+    representative that is going to be looked up in / handed over with the pruned dictionary
+    must therefore be evaluated *after* the dictionary: later in the evaluation order of the
+    same expression, or in a statement dominated by one that already read it."""
+    P = ctx.P
+    base = P.need_class("RuleDBBase")
+    n = 0
+    for cls in P.subclasses(base):
+        for m in cls.methods.values():
+            if m.name == "pruned_dict":
+                continue
+            f = m.node
+            for st in walk_local(f):
+                if not isinstance(st, ast.stmt) or isinstance(st, (ast.FunctionDef, ast.ClassDef, ast.If, ast.For, ast.While, ast.Try, ast.With)):
+                    continue
+                order = []
+                for fld in ("value", "test", "exc"):
+                    v = getattr(st, fld, None)
+                    if isinstance(v, ast.AST):
+                        order = _eval_order(v)
+                if not order:
+                    continue
+                pd = [i for i, x in enumerate(order) if is_self_attr(x, "pruned_dict")]
+                alias = [i for i, x in enumerate(order) if isinstance(x, ast.Name) and _is_pruned_dict(f, x)]
+                if not pd and not alias:
+                    continue
+                if not pd:
+                    pd = [len(order) + 1]  # only an alias here: freshness comes from the earlier read
+                reps = [i for i, x in enumerate(order) if isinstance(x, ast.Subscript) and K._is_equivdb(x.value, f)
+                        or (isinstance(x, ast.Call) and isinstance(x.func, ast.Attribute) and x.func.attr == "__getitem__" and K._is_equivdb(x.func.value, f))]
+                names = [(i, x) for i, x in enumerate(order) if isinstance(x, ast.Name) and is_rep(K.kind(x, f))]
+                # @ensure_specification calls has_specification() first: the dictionary is computed and
+                # cached before the body runs, so reading it again does not recompute it
+                ensured = any(norm(d) == "ensure_specification" for d in f.decorator_list)
+                earlier_read = ensured or any(C.dominates(f, s2, st) for s2 in walk_local(f) if isinstance(s2, ast.stmt) and s2 is not st
+                                   and not isinstance(s2, (ast.If, ast.For, ast.While, ast.Try, ast.With, ast.FunctionDef))
+                                   and any(is_self_attr(y, "pruned_dict") for y in ast.walk(s2)))
+                for i in reps:
+                    n += 1
+                    if i > pd[0] or earlier_read:
+                        ctx.ok("K10", f"{m.qualname}: `{norm(order[i])}` is evaluated after self.pruned_dict")
+                    else:
+                        ctx.violation("K10", st, f"`{norm(order[i])}` is evaluated before `self.pruned_dict` in this expression; recomputing the pruned dictionary "
+                                      "merges one-way cycles (connect_cycles) and may change the representative of the start class, so the representative used "
+                                      "is stale: has a specification, answers False (until asked again)")
+                for i, x in names:
+                    r = D.reaching_value(f, x, x.id)
+                    if r is None:
+                        continue
+                    n += 1
+                    def_st = r[0]
+                    fresh = ensured or any(C.dominates(f, s2, def_st) for s2 in walk_local(f) if isinstance(s2, ast.stmt) and s2 is not def_st
+                                and not isinstance(s2, (ast.If, ast.For, ast.While, ast.Try, ast.With, ast.FunctionDef))
+                                and any(is_self_attr(y, "pruned_dict") for y in ast.walk(s2)))
+                    if fresh:
+                        ctx.ok("K10", f"{m.qualname}: representative `{x.id}` is computed after self.pruned_dict was read")
+                    else:
+                        ctx.violation("K10", def_st, f"representative `{x.id}` is computed before the pruned dictionary it is used with is (re)computed; "
+                                      "connect_cycles may have changed it by then")
+    if n < 4:
+        ctx.floor("K10", 99)
